@@ -16,6 +16,7 @@ From SV Require Import Proofs.AssemblerProofs Proofs.TcpRecvBase Proofs.TcpRecvW
   Proofs.TcpRecvPayload Proofs.TcpRecvInv Proofs.TcpRecvProcess Proofs.TcpRecvStep
   Proofs.TcpRecvSync Proofs.TcpRecvDispatch Proofs.TcpRecvTrace Proofs.TcpRecvTheorems.
 From SV Require Import Proofs.TcpSendBase Proofs.TcpSendInv.
+From SV Require Proofs.TcpLiveBase Proofs.TcpLiveProofs.
 From SV Require Import Proofs.TcpNetBase Proofs.TcpNetFrame Proofs.TcpNetContract.
 
 Notation rxghost := TcpRecvTrace.ghost.
@@ -239,8 +240,11 @@ Definition kl (K : option Z) (R : Z) (gr : rxghost) (s : socket) : Prop :=
   end.
 
 (* endpoint [e] with ghost [g]; (S, F) is the stream of the PEER, which [e] receives *)
+Definition live_ok (e : endpoint) : Prop :=
+  mtu_ok (ep_cx e) /\ TcpLiveProofs.tcp_live_inv (ep_sock e).
+
 Definition EP (S : Z -> Z) (F : option Z) (e : endpoint) (g : eghost) : Prop :=
-  inv (eg_tx g) (ep_sock e) /\ ctx_ok (ep_cx e) /\
+  inv (eg_tx g) (ep_sock e) /\ (ctx_ok (ep_cx e) /\ live_ok e) /\
   ginv (fun _ => S) (fun _ => F) (eg_rx g) (ep_sock e) /\
   txl (eg_tx g) e /\ rxl F (eg_rx g) e /\
   jl (eg_J g) (eg_tx g) (ep_sock e) /\ kl (eg_K g) (eg_R g) (eg_rx g) (ep_sock e).
@@ -954,7 +958,7 @@ Section XStep.
       (ep_closed ex = true -> ep_written ex' = ep_written ex).
   Proof.
     intros HEPx HEPy HDxy HDyx Hcout Hcin Hrun Hstep Hxf Hseg Hrecv gr' Hresync Hancsync.
-    pose proof HEPx as (Hinv & Hcx & Hg & Htxl & Hrxl & Hjl & Hkl).
+    pose proof HEPx as (Hinv & (Hcx & (Hmtu & Hlive)) & Hg & Htxl & Hrxl & Hjl & Hkl).
     pose proof HEPy as (_ & _ & _ & _ & _ & _ & Hkly).
     pose proof HDxy as (Hpd & Hanc & Hhv & Hquiet & Hvv & HRL & Huu & Hrd).
     pose proof HDyx as (Hpd2 & Hanc2 & Hhv2 & Hquiet2 & Hvv2 & HRL2 & Huu2 & Hrd2).
@@ -978,7 +982,11 @@ Section XStep.
     { destruct ev; try exact I. destruct (Hseg ip r eq_refl) as (p & Hin & _ & -> & _).
       apply repr_ok_parse. }
     (* C05 and C04 *)
-    destruct (c05 cx gt s ev s' out tags Hinv Hcx Hevtx Hstep) as (gt' & Hinv' & Hrel & Hpk).
+    destruct (c05 cx gt s ev s' out tags Hinv Hcx Hmtu Hlive Hevtx Hstep) as (gt' & Hinv' & Hrel & Hpk).
+    assert (Hlive' : TcpLiveProofs.tcp_live_inv s').
+    { apply (TcpLiveProofs.step_inv cx s ev s' out tags); [apply Hcx| |exact Hlive | exact Hstep].
+      destruct ev; try exact I. cbn [TcpLiveProofs.ev_ok]. destruct Hevtx as (_ & H2 & H3 & H4).
+      split; [exact H3|]. split; [exact H2 | exact H4]. }
     pose proof (step_inv Sx Fx (Fx_nonneg Fin HFnn) cx gr s ev s' out tags Hg Hevrx Hstep) as (Hg' & Hack & _).
     fold gr' in Hg', Hack.
     exists gt'. cbv zeta.
@@ -1035,7 +1043,7 @@ Section XStep.
     split; [|split; [|split; [|split; [exact Hinv'|split; [exact Hrel|split; [exact Hpk|split; [exact HJnew | exact Hfrozen]]]]]]].
     - (* EP x *)
       unfold EP. cbn [eg_tx eg_rx eg_J eg_K eg_R next_g]. rewrite X1, X2.
-      split; [exact Hinv'|]. split; [exact Hcx|]. split; [exact Hg'|]. split; [exact Htxl'|].
+      split; [exact Hinv'|]. split; [split; [exact Hcx|split; [rewrite X2; exact Hmtu | rewrite X1; exact Hlive']]|]. split; [exact Hg'|]. split; [exact Htxl'|].
       split; [exact Hrxl'|]. split; [exact Hjl' | exact Hkl'].
     - (* x -> y *)
       unfold DIR. cbn [eg_tx eg_rx eg_J eg_K eg_R next_g].
